@@ -44,7 +44,20 @@ def design(ctx, sd):
             raise Inconclusive("RpcLocks control variant %s passes: the model is vacuous" % v)
         controls[v] = c.invariant or ("deadlock" if c.deadlock else "violated")
         st += c.distinct
-    ctx.cover(lock_model_states=r.distinct, lock_model_controls=controls)
+    # the trace specification itself must reject what the controls stand for: a synthetic history in which the sender lock is
+    # still held when the transport is closed (and the same history with the release in place must be accepted)
+    good = ["reset", "task-add", "snd-acq", "send", "snd-rel", "bg-cancel", "task-done", "tasks-waited", "send", "tclose"]
+    for name, kinds, want_reject in (("complete", good, False), ("lock-held-at-close", [k for k in good if k != "snd-rel"], True)):
+        with open(os.path.join(sd, "rpcsync.ndjson"), "w") as f:
+            for i, k in enumerate(kinds):
+                f.write(json.dumps({"k": k, "i": i}) + "\n")
+        rt = tlc.run(ctx, sd, "RpcSync", cfg="RpcSync.cfg", workers=1, timeout=600, allow_violation=True, dfs_queue=True)
+        rejected = any("REJECTED_AT_LINE" in ln for ln in rt.out.splitlines())
+        if rejected != want_reject:
+            raise Inconclusive("RpcSync %s the synthetic history '%s': the trace specification is %s" % (
+                "rejects" if rejected else "accepts", name, "too strict" if rejected else "vacuous"))
+        st += rt.distinct
+    ctx.cover(lock_model_states=r.distinct, lock_model_controls=controls, sync_spec_controls={"complete": "accepted", "lock-held-at-close": "rejected"})
     return st
 
 
